@@ -118,7 +118,7 @@ RE_ANCHOR = re.compile(r'^/+')
 RE_WIN_ANCHOR = re.compile(r'^(?:\\\\|/)+')
 RE_POSIX = re.compile(r':(alnum|alpha|ascii|blank|cntrl|digit|graph|lower|print|punct|space|upper|word|xdigit):\]')
 
-SET_OPERATORS = frozenset(('&', '~', '|'))
+SET_OPERATORS = frozenset(('&', '~', '|', '#'))
 NEGATIVE_SYM = frozenset((b'!', '!'))
 MINUS_NEGATIVE_SYM = frozenset((b'-', '-'))
 ROUND_BRACKET = frozenset((b'(', '('))
@@ -1137,7 +1137,7 @@ class WcParse(Generic[AnyStr]):
                     raise StopIteration
                 value = c
             elif c in SET_OPERATORS:
-                # Escape &, |, and ~ to avoid &&, ||, and ~~
+                # Escape &, |, and ~ to avoid &&, ||, and ~~ (and # so a sequence can never spell the `(?#)` marker)
                 value = '\\' + c
             else:
                 # Anything else
